@@ -32,7 +32,7 @@ Proof.
     by (apply sqrt_sqrt; assumption).
   destruct p; unfold index_along_core_gen, index_along_core_Ordinary, index_along_core_Extraordinary, fresnel_index;
     fold_coeffs nx ny nz sx sy sz; fold ax ay az px py pz;
-    unfold find_roots_quadratic_monic;
+    unfold find_roots_quadratic_monic, index_along_core_Ordinary_of, index_along_core_Extraordinary_of;
     set (b := fb ax ay az px py pz) in *; set (c := fc ax ay az px py pz) in *;
     replace (b * b - 4 * 1 * c) with (fdisc ax ay az px py pz) by (unfold fdisc; fold b c; ring);
     set (D := fdisc ax ay az px py pz) in *;
@@ -49,6 +49,67 @@ Proof.
     f_equal. f_equal. field.
   - destruct (Rlt_dec (- ((- b - sqrt D) / (2 * 1))) 0) as [Hl | _]; [exfalso; lra |].
     f_equal. f_equal. field.
+Qed.
+
+(* ---- the repaired code (Roots::No arm returns the double root -b/2): whatever the binary64 solver answers next to an optic
+   axis — the exact case analysis, or `no real root` because the rounded discriminant came out negative — the value returned
+   is finite, positive and lies between the two Fresnel solutions (hence between the smallest and largest principal index);
+   where the exact discriminant vanishes (on an optic axis) it IS the Fresnel solution. *)
+Lemma core_of_no p nx ny nz sx sy sz :
+  0 < nx -> 0 < ny -> 0 < nz -> sx * sx + sy * sy + sz * sz = 1 ->
+  index_along_core_of_gen RootsNo p nx ny nz sx sy sz =
+  1 / sqrt (fb (inv2 nx) (inv2 ny) (inv2 nz) (sx * sx) (sy * sy) (sz * sz) / 2).
+Proof.
+  intros Hx Hy Hz Hs.
+  destruct (index_bounds nx ny nz sx sy sz (min3 nx ny nz) (max3 nx ny nz)) as ((_ & _ & _ & HD & Hys & Hyf) & _);
+    try assumption.
+  { unfold min3. repeat apply Rmin_glb_lt; assumption. }
+  { unfold min3, max3; split; [apply Rmin_l | apply Rmax_l]. }
+  { unfold min3, max3; split; [eapply Rle_trans; [apply Rmin_r | apply Rmin_l] | eapply Rle_trans; [apply Rmax_l | apply Rmax_r]]. }
+  { unfold min3, max3; split; [eapply Rle_trans; [apply Rmin_r | apply Rmin_r] | eapply Rle_trans; [apply Rmax_r | apply Rmax_r]]. }
+  pose proof (roots_sum (inv2 nx) (inv2 ny) (inv2 nz) (sx * sx) (sy * sy) (sz * sz)) as Hsum.
+  set (b := fb (inv2 nx) (inv2 ny) (inv2 nz) (sx * sx) (sy * sy) (sz * sz)) in *.
+  assert (Hb : 0 < b) by lra.
+  destruct p; unfold index_along_core_of_gen, index_along_core_Ordinary_of, index_along_core_Extraordinary_of;
+    match goal with |- context [Rlt_dec (0.5 * ?e) 0] =>
+      replace e with b by (unfold b, fb, inv2; ring) end;
+    (destruct (Rlt_dec (0.5 * b) 0) as [Hl | _]; [exfalso; lra |]);
+    f_equal; f_equal; lra.
+Qed.
+
+Theorem index_along_any_solver_answer p nx ny nz sx sy sz r :
+  0 < nx -> 0 < ny -> 0 < nz -> sx * sx + sy * sy + sz * sz = 1 ->
+  r = RootsNo \/
+  r = find_roots_quadratic_monic (index_along_b_gen nx ny nz sx sy sz) (index_along_c_gen nx ny nz sx sy sz) ->
+  fresnel_index Extraordinary nx ny nz sx sy sz <= index_along_core_of_gen r p nx ny nz sx sy sz <= fresnel_index Ordinary nx ny nz sx sy sz /\
+  0 < index_along_core_of_gen r p nx ny nz sx sy sz /\
+  (fdisc (inv2 nx) (inv2 ny) (inv2 nz) (sx * sx) (sy * sy) (sz * sz) = 0 ->
+   index_along_core_of_gen r p nx ny nz sx sy sz = fresnel_index p nx ny nz sx sy sz).
+Proof.
+  intros Hx Hy Hz Hs Hr.
+  destruct (index_between_principal nx ny nz sx sy sz Hx Hy Hz Hs) as (Hmin & Hlo & Hmid & Hhi).
+  destruct Hr as [-> | ->].
+  - rewrite core_of_no by assumption.
+    destruct (index_bounds nx ny nz sx sy sz (min3 nx ny nz) (max3 nx ny nz)) as ((_ & _ & _ & HD & Hys & Hyf) & _);
+      try assumption.
+    { unfold min3, max3; split; [apply Rmin_l | apply Rmax_l]. }
+    { unfold min3, max3; split; [eapply Rle_trans; [apply Rmin_r | apply Rmin_l] | eapply Rle_trans; [apply Rmax_l | apply Rmax_r]]. }
+    { unfold min3, max3; split; [eapply Rle_trans; [apply Rmin_r | apply Rmin_r] | eapply Rle_trans; [apply Rmax_r | apply Rmax_r]]. }
+    unfold fresnel_index, y_slow, y_fast in *.
+    set (b := fb (inv2 nx) (inv2 ny) (inv2 nz) (sx * sx) (sy * sy) (sz * sz)) in *.
+    set (D := fdisc (inv2 nx) (inv2 ny) (inv2 nz) (sx * sx) (sy * sy) (sz * sz)) in *.
+    pose proof (sqrt_pos D) as HsD.
+    assert (Hb2 : 0 < b / 2) by lra.
+    repeat split.
+    + apply inv_sqrt_antitone; lra.
+    + apply inv_sqrt_antitone; lra.
+    + apply inv_sqrt_pos; lra.
+    + intros HD0. rewrite HD0, sqrt_0. destruct p; f_equal; f_equal; lra.
+  - assert (E : index_along_core_of_gen
+                  (find_roots_quadratic_monic (index_along_b_gen nx ny nz sx sy sz) (index_along_c_gen nx ny nz sx sy sz))
+                  p nx ny nz sx sy sz = index_along_core_gen p nx ny nz sx sy sz) by (destruct p; reflexivity).
+    rewrite E, index_along_core_is_model by assumption.
+    repeat split; try (destruct p; lra).
 Qed.
 
 (* whole call: lab direction, crystal angles *)
